@@ -1487,6 +1487,30 @@ func (x *c12run) compareAll(op Op) {
 			it.Done()
 			x.checkOrder("Iterate()", ks, m, nil)
 		}
+		// two iterators over the same object advanced alternately (what nested
+		// loops and zip(d, d) do): each must see the whole sequence
+		if it1, ok := obj.(starlark.Iterable); ok && (!x.long || x.opIdx%971 == 0) {
+			a, b := it1.Iterate(), it1.Iterate()
+			var ka, kb []starlark.Value
+			var va, vb starlark.Value
+			for {
+				oka := a.Next(&va)
+				if oka {
+					ka = append(ka, va)
+				}
+				okb := b.Next(&vb)
+				if okb {
+					kb = append(kb, vb)
+				}
+				if !oka && !okb {
+					break
+				}
+			}
+			a.Done()
+			b.Done()
+			x.checkOrder("first of two interleaved iterators", ka, m, nil)
+			x.checkOrder("second of two interleaved iterators", kb, m, nil)
+		}
 		if !x.long || x.opIdx%971 == 0 {
 			tmpl := "st:order"
 			if x.isSet {
